@@ -866,6 +866,12 @@ func (runInfo *runInfoStruct) invokeChanExpr(expr *ast.ChanExpr) {
 	if rhs.Kind() == reflect.Chan {
 		// rhs is channel
 		// receive from rhs channel
+		if rhs.Type().ChanDir()&reflect.RecvDir == 0 {
+			// reflect.Select panics on a receive case with a send-only channel
+			runInfo.err = newStringError(expr, "receive from send-only channel")
+			runInfo.rv = nilValue
+			return
+		}
 		cases := []reflect.SelectCase{{
 			Dir:  reflect.SelectRecv,
 			Chan: reflect.ValueOf(runInfo.ctx.Done()),
